@@ -7,7 +7,7 @@
 #![allow(clippy::needless_range_loop, clippy::too_many_arguments)]
 use crate::libm;
 use crate::util::*;
-use compute::linalg::{invert_matrix, matmul, solve};
+use compute::linalg::{dot, invert_matrix, matmul, solve};
 use compute::predict::{ExponentialFamily as Fam, GLM};
 use compute::statistics::mean;
 
@@ -218,7 +218,8 @@ pub fn oracle(tier: &str, seed: u64) -> (u64, Vec<Finding>) {
                     add(&mut out, &format!("{}gaussian:not-ridge-least-squares", wtag), format!("coefficient {} = {:e}, (weighted, ridge) least squares gives {:e}", j, coef[j], bls[j]), inp.clone()); } }
             }
         }
-        // (d) deviance at the fitted means
+        // (d) deviance at the fitted means; with prior weights: sum of w_i d(y_i, mu_i) (for frequency weights, the family's
+        //     deviance of the replicated data)
         let dev = g.deviance().unwrap();
         let dref = ref_deviance(&pr, &coef, false);
         if pr.wkind == 0 {
@@ -226,10 +227,10 @@ pub fn oracle(tier: &str, seed: u64) -> (u64, Vec<Finding>) {
                 add(&mut out, &format!("deviance:{}", if fam == 0 { "gaussian-not-residual-sum-of-squares" } else { "not-family-deviance" }),
                     format!("deviance() = {:e}, the family's deviance at the fitted means is {:e}", dev, dref), inp.clone());
             }
-        } else if pr.wkind == 1 {
+        } else {
             let dw = ref_deviance(&pr, &coef, true);
             if !((dev - dw).abs() <= tf * (dw.abs() + 1.0)) {
-                add(&mut out, "weighted:deviance-ignores-weights", format!("deviance() = {:e} with frequency weights; sum of w_i d_i = {:e}, unweighted sum = {:e}", dev, dw, dref), inp.clone());
+                add(&mut out, "weighted:deviance-ignores-weights", format!("deviance() = {:e} with {} weights; sum of w_i d_i = {:e}, unweighted sum = {:e}", dev, ["", "frequency", "real"][pr.wkind], dw, dref), inp.clone());
             }
         }
         // (e) aic / bic / dispersion formulas from the reported deviance
@@ -241,7 +242,7 @@ pub fn oracle(tier: &str, seed: u64) -> (u64, Vec<Finding>) {
         let dispref = if has_disp(fam) { dev / (nn - p as f64) } else { 1.0 };
         if !rel(disp, dispref, 1e-12) { add(&mut out, "dispersion:formula", format!("dispersion() = {:e}, expected {:e}", disp, dispref), inp.clone()); }
         // (f) standard errors: sqrt diag (dispersion * inverse Fisher information at the fitted coefficients)
-        if pr.wkind != 2 {
+        {
             let dtrue = ref_deviance(&pr, &coef, true);
             let disp_true = if has_disp(fam) { dtrue / (nn - p as f64) } else { 1.0 };
             let h = ref_fisher(&pr, &coef);
@@ -288,8 +289,8 @@ pub fn oracle(tier: &str, seed: u64) -> (u64, Vec<Finding>) {
             let mut traj: Vec<Vec<f64>> = vec![]; let mut jstop = 0;
             for k in 1..=100 { match run_fit(&pr, k) { Ok((okk, gk)) => { traj.push(gk.coef().unwrap().to_vec()); if okk { jstop = k; break; } } Err(_) => break } }
             if jstop >= 3 {
-                // penalised deviance seen by iteration k: deviance at the means of beta_{k-1}, penalty at beta_k
-                let pd = |k: usize| ref_deviance(&pr, &traj[k - 2], false) + alpha * traj[k - 1][1..].iter().map(|b| b * b).sum::<f64>();
+                // penalised deviance seen by iteration k: (weighted) deviance at the means of beta_{k-1}, penalty at beta_k
+                let pd = |k: usize| ref_deviance(&pr, &traj[k - 2], true) + alpha * traj[k - 1][1..].iter().map(|b| b * b).sum::<f64>();
                 let (d1, d0) = (pd(jstop), pd(jstop - 1));
                 let relc = (d1 - d0).abs() / d0;
                 if !(relc < tol * (1.0 + 1e-6) + 1e-13) { add(&mut out, "status:ok-without-convergence", format!("fit returned Ok after {} iterations but the relative change of the penalised deviance (deviance + alpha*|beta_1..|^2) between the last two iterations is {:e} >= tolerance {:e}", jstop, relc, tol), inp.clone()); }
@@ -302,6 +303,17 @@ pub fn oracle(tier: &str, seed: u64) -> (u64, Vec<Finding>) {
             if let Ok(pd) = catch(|| FAMS[fam].0.penalized_deviance(&pr.y, &mu, alpha, &coef)) {
                 let want = ref_deviance(&pr, &coef, false) + alpha * coef[1..].iter().map(|b| b * b).sum::<f64>();
                 if !rel(pd, want, 1e-9) && p > 1 && alpha > 0.0 && fam != 0 { add(&mut out, "penalized-deviance:penalty-not-alpha-times-squared-norm", format!("penalized_deviance = {:e}, deviance + alpha*|beta_1..|^2 = {:e}", pd, want), inp.clone()); }
+            }
+        }
+        // (l) explicit unit weights are the same fit as no weights, bit for bit (the weighted deviance takes the family's own
+        //     deviance when every weight is 1)
+        if pr.wkind == 0 && it % 4 == 0 {
+            let mut q = pr.clone(); q.w = Some(vec![1.0; n]);
+            if let Ok((ok2, g2)) = run_fit(&q, 100) {
+                let c2 = g2.coef().unwrap();
+                let same = ok2 && c2.len() == coef.len() && c2.iter().zip(&coef).all(|(a, b)| a.to_bits() == b.to_bits())
+                    && g2.deviance().unwrap().to_bits() == dev.to_bits() && g2.dispersion().unwrap().to_bits() == disp.to_bits();
+                if !same { add(&mut out, "weighted:unit-weights-differ-from-no-weights", format!("with weights = [1; n]: coef {:?}, deviance {:e}; without weights: coef {:?}, deviance {:e}", c2, g2.deviance().unwrap(), coef, dev), inp.clone()); }
             }
         }
         // (k) frequency weights = replicated observations
@@ -318,6 +330,11 @@ pub fn oracle(tier: &str, seed: u64) -> (u64, Vec<Finding>) {
                 if let (Ok(se), Ok(se2)) = (catch(|| g.coef_standard_error().unwrap().to_vec()), catch(|| g2.coef_standard_error().unwrap().to_vec())) {
                     for j in 0..p { if !rel(se[j], se2[j], tf + 1e-5) { add(&mut out, "weighted:stderr-differs-from-replicated-data", format!("standard error {} = {:e} with frequency weights, {:e} on the replicated data", j, se[j], se2[j]), inp.clone()); } }
                 }
+                // deviance, dispersion, AIC, BIC: the two fits stop independently, each within the tolerance of the common optimum
+                let (d2, disp2, aic2, bic2) = (g2.deviance().unwrap(), g2.dispersion().unwrap(), g2.aic().unwrap(), g2.bic().unwrap());
+                if !((dev - d2).abs() <= (tf + 1e-6) * (d2.abs() + 1.0)) { add(&mut out, "weighted:deviance-differs-from-replicated-data", format!("deviance {:e} with frequency weights, {:e} on the replicated data", dev, d2), inp.clone()); }
+                if !((disp - disp2).abs() <= (tf + 1e-6) * (disp2.abs() + 1.0)) { add(&mut out, "weighted:dispersion-differs-from-replicated-data", format!("dispersion {:e} with frequency weights, {:e} on the replicated data", disp, disp2), inp.clone()); }
+                if !((aic - aic2).abs() <= (tf + 1e-6) * (aic2.abs() + 1.0)) || !((bic - bic2).abs() <= (tf + 1e-6) * (bic2.abs() + 1.0)) { add(&mut out, "weighted:aic-bic-differ-from-replicated-data", format!("aic, bic = {:e}, {:e} with frequency weights, {:e}, {:e} on the replicated data", aic, bic, aic2, bic2), inp.clone()); }
             }
         }
     }
@@ -346,6 +363,19 @@ fn step_args(pr: &Prob, coef: &[f64]) -> (Vec<f64>, Vec<f64>, Vec<f64>, Vec<f64>
     let info = ddbeta.clone();
     if pr.alpha > 0.0 { for j in 1..p { dbeta[j] += pr.alpha * coef[j]; } for j in 1..p { ddbeta[j * p + j] += pr.alpha; } }
     (ddbeta, dbeta, info, mu)
+}
+
+/// mirror of `GLM::weighted_penalized_deviance` (private) on the crate's public functions: the penalised deviance the loop
+/// compares, from the observed means and coefficients (unit weights: the family's own penalised deviance)
+fn fit_pdev(pr: &Prob, mu: &[f64], coef: &[f64]) -> f64 {
+    let fam = FAMS[pr.fam].0;
+    match &pr.w {
+        Some(w) if !w.iter().all(|&v| v == 1.0) => {
+            let d: f64 = (0..pr.y.len()).map(|i| w[i] * fam.deviance(&pr.y[i..i + 1], &mu[i..i + 1])).sum();
+            d + pr.alpha * dot(&coef[1..], &coef[1..])
+        }
+        _ => fam.penalized_deviance(&pr.y, mu, pr.alpha, coef),
+    }
 }
 
 fn opt_list(v: &Option<Vec<f64>>) -> Tm { match v { Some(v) => app("Some", vec![fl(v)]), None => Tm::Raw("None".into()) } }
@@ -386,7 +416,6 @@ fn fit_case_e2e(pr: &Prob, t: &libm::Table, max_iter: usize, start: Option<(&[f6
 /// trajectory of one problem: step cases k -> k+1 until Ok or `kmax`, plus (optionally) the full run
 fn trajectory(cs: &mut Cases, pr: &Prob, kmax: usize, full: bool, tag: &str, r: &mut Rng) {
     let (n, p) = (pr.n, pr.p);
-    let fam = FAMS[pr.fam].0;
     // new design for predict: a few rows of the training design (so stored offsets of length n apply only when m = n)
     let xnew: Vec<f64> = if pr.off.is_some() || r.coin(0.3) { pr.x.clone() } else { let m = 1 + r.below(5) as usize; pr.x[..(m.min(n)) * p].to_vec() };
     let mut coef_prev: Vec<f64> = vec![];
@@ -401,7 +430,7 @@ fn trajectory(cs: &mut Cases, pr: &Prob, kmax: usize, full: bool, tag: &str, r: 
             Ok((a, b, info, _mu)) => {
                 let pdev = if k == 0 { f64::INFINITY } else {
                     let mu_prev = catch(|| step_args(pr, &coef_prev)).map(|v| v.3).unwrap_or(vec![]);
-                    catch(|| fam.penalized_deviance(&pr.y, &mu_prev, pr.alpha, &coef)).unwrap_or(f64::NAN)
+                    catch(|| fit_pdev(pr, &mu_prev, &coef)).unwrap_or(f64::NAN)
                 };
                 (vec![solve_entry(a, b)], vec![inv_entry(info)], pdev)
             }
